@@ -16,7 +16,7 @@ def main():
   head = sh("git -C /repo rev-parse HEAD").stdout.strip()
   sh(f"git -C {VAL} checkout -q -- . && git -C {VAL} checkout -q --detach {head}")
   rows = []
-  for sid in sorted(os.listdir(SEEDS)):
+  for sid in sorted(x for x in os.listdir(SEEDS) if os.path.exists(os.path.join(SEEDS, x, "meta.json"))):
     if pre and not any(sid.startswith(p) for p in pre):
       continue
     d = os.path.join(SEEDS, sid)
